@@ -97,6 +97,27 @@ def stale_check_rule(A, rule, entries, resources, guards_of, modes=("th", "mp"))
 
 
 # ---------------------------------------------------------------------------------------
+def no_dir_removal_rule(A, rh):
+    """C07.h / C04.h: REMOVE events whose primitive removes a directory"""
+    seen_h = set()
+    for it in A.all_api_runs(("th",)):
+        for ev in it.events:
+            if ev.kind != "REMOVE":
+                continue
+            kh = (ev.func.qual, ev.line)
+            if kh in seen_h:
+                continue
+            seen_h.add(kh)
+            rh.ob()
+            rh.inst(f"{ev.func.qual}:{ev.line} {ev.prim}")
+            if ev.prim in ("os.rmdir", "os.removedirs", "shutil.rmtree", "path.rmdir"):
+                rh.fail(site_func(ev), site_text(ev), f"{ev.prim} removes a directory ({sorted(repr(c) for c in ev.classes[0])[:1]}): a concurrent call that has just "
+                        "created / verified the directory and is about to move a file into it fails although it holds its own identifier's claim; "
+                        "with rmtree (or a wrong emptiness test) the files of other identifiers below it are removed as well",
+                        site_loc(A, ev))
+
+
+# ---------------------------------------------------------------------------------------
 def release_held_rule(A, rg, entries, only_cls=None):
     """C07.f (and C03.g for the tagging claim): every release is reached with the claim held by this call"""
     for m in ("th", "mp"):
@@ -241,21 +262,7 @@ def check_C07(A: Analysis, tier):
 
     rh = Rule("C07", "C07.h", "no call removes a directory of the store's permanent trees: a shard directory is shared by every identifier "
               "with the same prefix, and creating it (makedirs) and moving a file into it is atomic with no claim an rmdir could hold", floor=3)
-    seen_h = set()
-    for it in A.all_api_runs(("th",)):
-        for ev in it.events:
-            if ev.kind != "REMOVE":
-                continue
-            kh = (ev.func.qual, ev.line)
-            if kh in seen_h:
-                continue
-            seen_h.add(kh)
-            rh.ob()
-            rh.inst(f"{ev.func.qual}:{ev.line} {ev.prim}")
-            if ev.prim in ("os.rmdir", "os.removedirs", "shutil.rmtree", "path.rmdir"):
-                rh.fail(site_func(ev), site_text(ev), f"{ev.prim} removes a directory ({sorted(repr(c) for c in ev.classes[0])[:1]}): a concurrent call that has just "
-                        "created / verified the directory and is about to move a file into it fails although it holds its own identifier's claim",
-                        site_loc(A, ev))
+    no_dir_removal_rule(A, rh)
     rules.append(rh)
 
     rg = Rule("C07", "C07.f", "a call releases only claims it took itself: no release is reached, on the normal path, on a "
